@@ -24,8 +24,8 @@ func GuardedRowConstruction(p *core.Program, r *core.Report, rule string) {
 		return
 	}
 	type site struct {
-		fd            *core.FuncDecl
-		call          *ast.CallExpr
+		fd             *core.FuncDecl
+		call           *ast.CallExpr
 		conn, src, dst ast.Expr
 	}
 	var sites []site
